@@ -10,7 +10,7 @@ ID = "C10"
 ANCHORS = 'variant_effect.substitution_effect,variant_effect.deletion_effect,variant_effect.insertion_effect'.split(",")
 MIN_INSTANCES = 16
 # rule families whose findings in this module are derived by an engine (not by comparing spellings): exempt from the rewrite gate
-SEMANTIC_RULES = {"R-MASK", "R-PURE"}
+SEMANTIC_RULES = {"R-MASK", "R-PURE", "R-SLICE0"}
 EXPLANATION = (
     "R-MASK: abstract interpretation over element-value sets of the indicator tensors in deletion_effect "
     "(zeros_like -> {0}, index-store of 1 -> {0,1}, comparison -> bool, + adds sets, 1 - s maps, |/&/~ stay boolean): the "
@@ -227,6 +227,9 @@ def run(repo, tier):
     for f, ps in (("substitution_effect", ["X", "substitutions"]), ("deletion_effect", ["X", "deletions"]),
                   ("insertion_effect", ["X", "insertions"])):
         out += pure_params(repo, repo.func(VE + "." + f), ps)
+    from ..rules import negative_slice_rule
+    for f in ("deletion_effect", "insertion_effect"):
+        out += negative_slice_rule(repo.func(VE + "." + f))
     return out
 
 
